@@ -54,6 +54,10 @@ func H_QuoteVerbatim() {
 		quoteUnderDefaultField(w, "\""+w+"\"")
 		return
 	}
+	if rtParam("CTXV") == 2 {
+		quotedRangeBounds(wb)
+		return
+	}
 	text := "f:\"" + w + "\""
 	e, err := lucene.Parse(text)
 	rtAssert("quoted-parses", err == nil && e != nil)
@@ -127,6 +131,40 @@ func quoteUnderDefaultField(w, written string) {
 	rtReach("end")
 }
 
+// quotedRangeBounds: quoted texts made of digits and letters as the two bounds of a range are
+// string constants in the inline SQL and string parameters, whatever they look like.
+func quotedRangeBounds(wb []byte) {
+	for _, b := range wb {
+		rtAssume(rtIn(b, "0123456789abce.")) // commas and a lone * in a bound are known findings of C03, not this clause's business
+	}
+	w := string(wb)
+	text := "f:[\"" + w + "\" TO \"10\"]"
+	rtObserve("query", text)
+	sql, rerr := lucene.ToPostgres(text)
+	rtAssert("quoted-renders", rerr == nil)
+	if rerr == nil {
+		rtObserve("sql", sql)
+		ast, _, okp := pgParse(sql)
+		okp = okp && ast.kind == qBetween && ast.a.kind == qCol && ast.b.kind == qStr && ast.c.kind == qStr
+		rtAssert("quoted-sql-shape", okp && ast.a.text == "f")
+		if okp {
+			rtAssert("quoted-sql-constant-verbatim", rtAnd(ast.b.text == w, ast.c.text == "10"))
+		}
+	}
+	_, params, perr := lucene.ToParameterizedPostgres(text)
+	rtAssert("quoted-param-renders", perr == nil)
+	if perr == nil {
+		ok := len(params) == 2
+		if ok {
+			s0, is0 := params[0].(string)
+			s1, is1 := params[1].(string)
+			ok = is0 && is1 && rtAnd(s0 == w, s1 == "10")
+		}
+		rtAssert("quoted-param-verbatim", ok)
+	}
+	rtReach("end")
+}
+
 const plainWordCls = "ABCDEFGHIJKLMNOPQRSTUVWXYZabcdefghijklmnopqrstuvwxyz0123456789_"
 
 // H_EscapeVerbatim (C08, escaping clause): a non-numeric text written as a bare word with a
@@ -154,6 +192,14 @@ func H_EscapeVerbatim() {
 				hasBackslash = true
 			}
 		}
+	}
+	if rtParam("HEX") == 1 { // a word in the syntax of a Go based integer literal is a word, not a number
+		pre := []string{"0x", "0X", "0b", "0o", "0_"}[rtChoose("base", 5)]
+		for _, b := range wb {
+			rtAssume(rtNot(rtIn(b, "pP"))) // 0x1p5 is a hexadecimal float: a number
+		}
+		text = append([]byte(pre), text...)
+		wb = append([]byte(pre), wb...)
 	}
 	if rtParam("MB") == 1 { // one multi-byte character in the middle: a letter stays as it is, anything else is escaped
 		mb := []string{"\xc3\xa9", "\xe2\x80\x94", "\xe2\x82\xac", "\xc2\xa7", "\xf0\x9f\x98\x80"}[rtChoose("mb", 5)]
